@@ -385,6 +385,39 @@ class Facts:
                 break
         return out
 
+    def scope(self, path, prefix=None, depth=2):
+        """`path`, its nested closures, and the private helpers that belong to it: crate-local
+        functions (under `prefix`) all of whose callers are already in the scope. A refactoring that
+        extracts part of a function into a single-caller helper leaves the scope's contents unchanged."""
+        out = list(self.family(path))
+        names = {b.path for b in out}
+        if prefix is None:
+            prefix = path.rsplit("::", 1)[0] if "::" in path else ""
+        for _ in range(depth):
+            added = False
+            for b in list(out):
+                for bi, t in b.calls():
+                    cands = set(callee_paths(t))
+                    for d in t["f"].get("tdefs", []) or []:
+                        if d:
+                            cands.add(d)
+                    for q in cands:
+                        if q in names or q not in self.bodies or not q.startswith(prefix):
+                            continue
+                        qb = self.bodies[q]
+                        if qb.kind not in ("fn", "assoc_fn"):
+                            continue
+                        callers = {cb.path for cb, _, _ in self.callers().get(q, [])}
+                        if callers and callers <= names:
+                            for x in self.family(q):
+                                if x.path not in names:
+                                    names.add(x.path)
+                                    out.append(x)
+                                    added = True
+            if not added:
+                break
+        return out
+
     # ------------------------------------------------------------------ lookup
     def body(self, path):
         b = self.bodies.get(path)
